@@ -267,16 +267,25 @@ fn gen_case(rng: &mut StdRng, keys: &Keys, index: usize) -> Option<(Value, Strin
     if amb_singleton(&item) {
         return None;
     }
-    if gen_kind == "block" && rng.gen_range(0..3) == 0 {
-        // the block's own scopes, with a parameter of their own now and then
-        let mut sc = vec![json!({"previous": true})];
-        if rng.gen() {
-            sc.push(json!({"param": "bk"}));
-        }
-        if rng.gen() {
-            sc.push(json!({"key": keys.ext[rng.gen_range(0..3)].public().to_string()}));
-        }
+    if gen_kind == "block" && rng.gen_range(0..2) == 0 {
+        // the block's own scopes: literal ones, a parameter of their own, the parameter before and after literals
+        let key = json!({"key": keys.ext[rng.gen_range(0..3)].public().to_string()});
+        let sc = match index % 4 {
+            0 => vec![json!({"previous": true})],
+            1 => vec![json!({"param": "bk"}), json!({"previous": true})],
+            2 => vec![json!({"previous": true}), json!({"param": "bk"}), key],
+            _ => vec![key, json!({"previous": true})],
+        };
         item["scopes"] = Value::Array(sc);
+    }
+    if gen_kind == "block" && index % 8 == 5 {
+        // a source that is its `trusting ...;` line and nothing else
+        item["facts"] = json!([]);
+        item["rules"] = json!([]);
+        item["checks"] = json!([]);
+        if item["scopes"].as_array().map(|a| a.is_empty()).unwrap_or(true) {
+            item["scopes"] = json!([{"previous": true}]);
+        }
     }
     let (mut tp, mut sp) = (vec![], vec![]);
     collect_params(&item, &mut tp, &mut sp, false);
